@@ -11,7 +11,8 @@ EXTENDS Gap, Json
 
 CONSTANTS GenLen,     \* history length
           Script,     \* <<>>: free; else the sequence of steps to follow, e.g. <<[a |-> "Issue", c |-> "std"], [a |-> "Pay", i |-> 0], ...>>
-          GenWant,    \* "": every history; "miss": only histories in which a restore leaves a funded address behind
+          GenWant,    \* "": every history; "miss": only histories in which a restore leaves a funded address behind;
+                      \* "edge": only histories that end with two funded indexes exactly G apart
           GenRandom   \* TRUE (simulation): one random instance per action kind, so kinds are drawn evenly
 VARIABLE hist
 gvars == <<vars, hist>>
@@ -67,5 +68,8 @@ Wanted == \/ GenWant = ""
           \/ GenWant = "miss" /\ \E k \in 1..Len(hist) :
                   \/ hist[k].a = "Restore" /\ hist[k].missed # <<>>
                   \/ hist[k].a = "RestoreAll" /\ \E j \in 1..Len(hist[k].rs) : hist[k].rs[j].missed # <<>>
-Emit == (Len(hist) = GenLen /\ Wanted) => PrintT(<<"HIST", ToJson([g |-> G, steps |-> hist])>>)
+\* "edge": two funded indexes exactly G apart with nothing funded between them - the longest gap the issue
+\* rule permits, i.e. the last index the restore scan must still reach
+WantedEdge == GenWant = "edge" /\ \E i, j \in UsedSet : j - i = G /\ \A k \in UsedSet : ~(i < k /\ k < j)
+Emit == (Len(hist) = GenLen /\ (Wanted \/ WantedEdge)) => PrintT(<<"HIST", ToJson([g |-> G, steps |-> hist])>>)
 =============================================================================
